@@ -28,6 +28,9 @@ CHECKS = {
  "C09": ("exploration", "simulated-node trace monitor with request-interleaving hooks: bounded-progress liveness oracle, spin / restart / crash detection from the request log; child processes; race detector",
          "Same simulator; events are appended between the count answer and the page answers (0/1/page/page+1 of them), pages are 1/2/3/100 events, and batches mix well-formed token-bridge messages (incl. target 65535, consistency 255, sequence near 2^64) with foreign-sender events, attestation-shaped events naming contracts whose metadata calls fail in seven ways and twelve kinds of malformed events. After the last mutation, within 6 further completed poll rounds every expected token-bridge message must have been forwarded exactly once; the request log must show no run of > 50 identical page requests (spin) and only one watcher start (no restart caused by event content); a watcher crash is a child-process exit attributed to its innermost repository frame.",
          "Liveness restated as bounded progress in poll rounds; quiescence detected through a read-only hook on the watcher's height-poller switch plus arrival stability.", "3/C09"),
+ "C10": ("exploration", "simulated JSON-RPC node (go-ethereum rpc.Server over loop-back WebSocket) trace monitor: safety judged from the answers actually served before each arrival; exactly-once oracle after quiescence; child processes; race detector",
+         "The real ethereum.Watcher runs in both confirmation modes (Ethereum/finalized/no extra confirmations and BSC/latest/consistency-level confirmations) against a fake node serving eth_getBlockByNumber/Hash, eth_getTransactionReceipt, eth_call (guardian-set getters) and eth_subscribe(logs) over a ground-truth chain. Scripts mine transactions with core logs, logs of another address with the same topic, other topics and failed receipts, make the head jump by {1,2,31,59,60,61,200,10000} past (or short of) the required depth, stall, replace blocks (transaction moved or dropped), send re-observation requests at every stage and inject RPC errors on every method (incl. transient receipt failures with heads arriving one by one). Each forwarded message must stem from a core-contract log with the message topic, and before it arrived the simulator must have served a head >= block + required confirmations and, as the last receipt answer, status 1 in that very block. In scripts without injected errors every final message must be forwarded exactly once by the head scan, never for a replaced block.",
+         "Simulated node; exactly-once oracle only in scripts without RPC faults / watcher restarts (plus the dedicated transient-receipt scenario).", "3/C10"),
  "C11": ("exploration", "intent-based runtime oracle on the real event conversion (hook), exported converters and parseAttestToken; attestation payloads built by the concatenation interpreted from token_bridge.ral",
          "Events whose six fields are drawn from the property's boundary list, random in-range values, negatives, non-numeric strings, wrong type tags / Val kinds, wrong field counts, senders and nonces of wrong length are converted by the real code; if every generated value fits, the message must carry exactly those values, the block timestamp (ms exact), the tx id and the Alephium chain id, otherwise the conversion must return an error; a panic is a violation. Contract id <-> address and hex conversions are checked to be inverse on random ids, and attestation payloads built by interpreting attestToken's ++ concatenation must parse back to the same id/decimals/symbol/name.",
          "Direct calls (no watcher, no node) - the watcher-level behaviour is C08/C09.", "3/C11"),
